@@ -66,7 +66,16 @@ def run_case(case) -> Result:
     eps0 = case["r"] / dyn.frequency_scale(model, q0)
     h0 = model.h(q0, p0)
     errs, herrs = [], []
-    for k in range(3):
+    k = -1
+    while True:
+        k += 1
+        if k >= 3:
+            # two halvings are the rule; if the observed orders are still RISING towards 3 (pre-asymptotic regime, e.g. a
+            # step that is large compared with the curvature radius of the manifold) halve further, up to three more times
+            o = [math.log2(errs[j] / errs[j + 1]) for j in range(len(errs) - 1) if errs[j + 1] > 0]
+            if not (len(o) >= 2 and max(o) < 2.5 and o[-1] > o[-2] + 0.15 and o[-1] > 1.8 and errs[-1] > 1e-9 and k < 6):
+                break
+            res.classes.append("extra-halving")
         eps = eps0 / 2 ** k
         ispec["eps"] = eps
         integ = dyn.build_integrator(ispec, system)
@@ -94,12 +103,12 @@ def run_case(case) -> Result:
     res.nontrivial = errs[0] > 1e-7
     res.extra["cases_with_order_judged"] = 0
     if errs[2] > 1e-8:
-        o1, o2 = math.log2(errs[0] / errs[1]), math.log2(errs[1] / errs[2])
+        o1, o2 = math.log2(errs[-3] / errs[-2]), math.log2(errs[-2] / errs[-1])
         res.extra["cases_with_order_judged"] = 1
         res.classes.append(f"order~{min(4, max(0, round(max(o1, o2))))}")
         if max(o1, o2) < 2.5:
             res.fail(f"C06:{label}:local-order", f"{label} on {spec['cls']}: one-step errors {errs} for eps0={eps0:.4g} "
-                     f"halved twice: observed order {o1:.2f}, {o2:.2f} (< 2.5): the step does not follow the exact flow "
+                     f"halved {len(errs) - 1} times: last observed orders {o1:.2f}, {o2:.2f} (< 2.5): the step does not follow the exact flow "
                      f"of the documented Hamiltonian over time eps to second order", errs=errs)
     if herrs[2] > 1e-9:
         e1, e2 = math.log2(herrs[0] / herrs[1]), math.log2(herrs[1] / herrs[2])
